@@ -27,14 +27,14 @@ fn(
     ensures=[
         ("pop.len", "len(result) == min(len(old(self.buffer)), max_length)", "C09,C02"),
         ("pop.fifo", "cat(result, self.buffer) == old(self.buffer)", "C02,C09"),
-        ("pop.empty-signalled", "implies(len(self.buffer) == 0, self._is_empty.flag)", "C08,C02"),
+        ("pop.empty-signalled", "implies(len(self.buffer) == 0, self._is_empty.flag)", "C08,C02,C09"),
         # C08, transcribed from the statement: once the waiting send is released the data the
         # server still holds for the stream is below the fixed bound
         # C08 "whenever the pressure abates ... every waiting send returns promptly": a pop that
         # could not fill a low-water-mark chunk (the window or the buffer ran short) and leaves the
         # buffer under the bound releases the waiting push -- the empty pop included (it is what
         # the send task does right after a full final frame)
-        ("C08.release.pop", "implies(len(result) < BUFFER_LOW_WATER and len(self.buffer) < BUFFER_HIGH_WATER, self._paused.flag)", "C08"),
+        ("C08.release.pop", "implies(len(result) < BUFFER_LOW_WATER and len(self.buffer) < BUFFER_HIGH_WATER, self._paused.flag)", "C08,C09"),
         ("C08.bound.pop", "implies(self._paused.flag and not old(self._paused.flag), len(self.buffer) < BUFFER_HIGH_WATER)", "C08"),
     ],
     modifies=["self.buffer", "self._paused.flag", "self._is_empty.flag"],
